@@ -85,13 +85,15 @@ func plan(tier string, seed int64) []vh.Batch {
 		// (<= 2 busy-waiting writers each) run at once
 		add("thr", 4, false)
 		add("px", 8, false)
+		add("share", 2, false)
 		add("dir", 2, false)
 		add("cfg", 1, false)
 		add("leak", 1, false)
 		add("race", 4, true)
 	} else {
 		add("thr", 4, false)
-		add("px", 6, false)
+		add("px", 5, false)
+		add("share", 1, false)
 		add("dir", 2, false)
 		add("cfg", 1, false)
 		add("leak", 1, false)
@@ -103,12 +105,19 @@ func plan(tier string, seed int64) []vh.Batch {
 // ---------------------------------------------------------------------------
 // goroutine census
 
-const loopFrame = "trafficshape.(*Bucket).loop"
+// A drain goroutine is recognised by its creator, trafficshape.NewBucket
+// ("go b.loop()"), or by the loop frame: a goroutine that has not run yet
+// shows only the compiler's wrapper frame (NewBucket.gowrap1), not
+// (*Bucket).loop.
+const (
+	loopFrame   = "trafficshape.(*Bucket).loop"
+	loopCreator = "trafficshape.NewBucket"
+)
 
 func loopIDs() map[string]bool {
 	m := map[string]bool{}
 	for _, g := range vh.Goroutines() {
-		if g.HasFrame(loopFrame) {
+		if g.HasFrame(loopFrame) || strings.Contains(g.Created, loopCreator) {
 			m[g.ID] = true
 		}
 	}
@@ -284,6 +293,35 @@ type state struct {
 	rejectedSince bool // a configuration was rejected since the last accepted one
 	obs           []*obs
 	aborted       string // model out of sync: stop
+	rx            int64  // bytes received by all harness clients (atomic): activity counter
+	stallMu       sync.Mutex
+	stalled       string // fingerprint of the quiescent system once a stall has been established
+}
+
+const readSlice = 15 * time.Second // a read that long without a byte triggers the quiescence classification (never a verdict by itself)
+
+// classifyStall is called by a client that has not received a byte for
+// readSlice. It decides by quiescence whether anything can still happen:
+// Stuck = every martian goroutine parked with identical stacks and no byte
+// received anywhere over the sampling window.
+func (st *state) classifyStall() vh.Outcome {
+	st.stallMu.Lock()
+	defer st.stallMu.Unlock()
+	if st.stalled != "" {
+		return vh.Stuck
+	}
+	out, fp := vh.Await(func() bool { return false }, vh.AwaitOpts{Grace: time.Second, Watchdog: 30 * time.Second,
+		Activity: func() string { return strconv.FormatInt(atomic.LoadInt64(&st.rx), 10) }})
+	if out == vh.Stuck {
+		st.stalled = fp
+	}
+	return out
+}
+
+func (st *state) isStalled() bool {
+	st.stallMu.Lock()
+	defer st.stallMu.Unlock()
+	return st.stalled != ""
 }
 
 func newState() *state {
@@ -362,6 +400,7 @@ type obs struct {
 	NoResp    bool // connection ended before any byte of this response
 	DiffAt    int64
 	BytesOK   bool
+	Stalled   bool // no further byte will arrive: the system is quiescent
 	TSend     time.Time
 	TDone     time.Time
 	ConnGen   int
@@ -469,6 +508,8 @@ func judge(r *vh.Run, c interface{}, st *state) {
 		r.Eval(1)
 		outcome := "complete"
 		switch {
+		case o.Stalled:
+			outcome = "stalled"
 		case o.NoResp:
 			outcome = "no-response"
 		case o.Delivered < o.L:
@@ -484,6 +525,11 @@ func judge(r *vh.Run, c interface{}, st *state) {
 			match = "nonmatching"
 		}
 		// 1. bytes
+		if o.Stalled {
+			viol(o, "C18:bytes:stalled:"+match, fmt.Sprintf("after %d of %d body bytes nothing more arrives and the system is quiescent: the bytes written into the shaped connection are never delivered", o.Delivered, o.L),
+				map[string]interface{}{"quiescent_goroutines": head(condense(st.stalled), 8000)})
+			continue
+		}
 		if !o.NoResp && !o.HeadOK {
 			viol(o, "C18:bytes:head:"+match, "the response head was not delivered intact: "+o.Detail, nil)
 			continue
@@ -697,12 +743,35 @@ func census(r *vh.Run, c interface{}, pre map[string]bool, allowed int, conns in
 		r.Class("census|leaked")
 		r.ViolationCase(c, "C18:release:bucket-goroutines",
 			fmt.Sprintf("after closing all %d shaped connections %d trafficshape.(*Bucket).loop goroutines created during the scenario remain, %d more than the configuration requests alone create (%d); system quiescent", conns, n, n-allowed, allowed),
-			map[string]interface{}{"remaining": n, "allowed": allowed, "connections": conns, "fingerprint_head": head(fp, 1500)})
+			map[string]interface{}{"remaining": n, "allowed": allowed, "connections": conns, "fingerprint_head": head(condense(fp), 3000)})
 		*skip = true
 	default:
 		r.SetCase(c)
 		r.Inconclusive("bucket census undecided (system not quiescent)", map[string]interface{}{"remaining": atomic.LoadInt64(&last), "allowed": allowed})
 	}
+}
+
+// condense collapses identical fingerprint lines ("N x line"), blocked lock
+// waiters first, so that the interesting part of a witness survives truncation.
+func condense(fp string) string {
+	cnt := map[string]int{}
+	var order []string
+	for _, l := range strings.Split(fp, "\n") {
+		if _, ok := cnt[l]; !ok {
+			order = append(order, l)
+		}
+		cnt[l]++
+	}
+	sort.SliceStable(order, func(i, j int) bool {
+		li := strings.Contains(order[i], "Mutex")
+		lj := strings.Contains(order[j], "Mutex")
+		return li && !lj
+	})
+	var sb strings.Builder
+	for _, l := range order {
+		fmt.Fprintf(&sb, "%d x %s\n", cnt[l], l)
+	}
+	return sb.String()
 }
 
 func head(s string, n int) string {
@@ -785,6 +854,25 @@ const ioWatchdog = 100 * time.Second
 
 var errWatchdog = fmt.Errorf("harness watchdog")
 
+// onTimeout is called when a read saw no byte for readSlice. It returns
+// (true, nil) to keep waiting, (false, nil) if the response is stalled for
+// good (o.Stalled set), (false, errWatchdog) if undecided for too long.
+func (cc *cconn) onTimeout(st *state, o *obs, tries *int) (bool, error) {
+	switch st.classifyStall() {
+	case vh.Stuck:
+		o.Stalled = true
+		o.TDone = time.Now()
+		cc.dead = true
+		return false, nil
+	default:
+		*tries++
+		if *tries > 8 {
+			return false, errWatchdog
+		}
+		return true, nil
+	}
+}
+
 // do performs one request/response exchange and records the observation.
 func (cc *cconn) do(st *state, q reqSpec, conc int, headSeen func()) (*obs, error) {
 	s, l, ranged := q.span()
@@ -814,12 +902,19 @@ func (cc *cconn) do(st *state, q reqSpec, conc int, headSeen func()) (*obs, erro
 	}
 	// head
 	var hd []byte
+	tries := 0
 	for {
+		cc.c.SetReadDeadline(time.Now().Add(readSlice))
 		line, err := cc.br.ReadSlice('\n')
 		hd = append(hd, line...)
+		atomic.AddInt64(&st.rx, int64(len(line)))
 		if err != nil {
 			if ne, ok := err.(net.Error); ok && ne.Timeout() {
-				return o, errWatchdog
+				goOn, werr := cc.onTimeout(st, o, &tries)
+				if goOn {
+					continue
+				}
+				return o, werr
 			}
 			o.TDone = time.Now()
 			cc.dead = true
@@ -888,7 +983,9 @@ func (cc *cconn) do(st *state, q reqSpec, conc int, headSeen func()) (*obs, erro
 		if l-o.Delivered < m {
 			m = l - o.Delivered
 		}
+		cc.c.SetReadDeadline(time.Now().Add(readSlice))
 		n, err := cc.br.Read(buf[:m])
+		atomic.AddInt64(&st.rx, int64(n))
 		if n > 0 {
 			if o.BytesOK {
 				if d := vh.FirstDiff(buf[:n], want[o.Delivered:o.Delivered+int64(n)]); d >= 0 {
@@ -902,7 +999,14 @@ func (cc *cconn) do(st *state, q reqSpec, conc int, headSeen func()) (*obs, erro
 		}
 		if err != nil {
 			if ne, ok := err.(net.Error); ok && ne.Timeout() {
-				return o, errWatchdog
+				goOn, werr := cc.onTimeout(st, o, &tries)
+				if goOn {
+					continue
+				}
+				if werr == nil {
+					cc.last = o
+				}
+				return o, werr
 			}
 			o.TDone = time.Now()
 			o.Closed = true
@@ -1170,6 +1274,47 @@ func genThrottleScenario(r *vh.Run, sc scenCase) *scenario {
 	return s
 }
 
+// genShareScenario: 6-8 connections hammer one or two shapes whose many
+// short always-firing halts make every response take the shape's write lock
+// several times while other connections start responses (which read the same
+// shape): the "concurrent connections sharing the same shapes" corner of the
+// quantifier at its densest.
+func genShareScenario(r *vh.Run, sc scenCase) *scenario {
+	rng := r.Rng(sc.Stream, sc.Idx)
+	n := int64(600 + rng.Intn(3000))
+	s := &scenario{Profile: "share", Variant: "share", Res: []int64{n, n, n}}
+	nslots := 1 + rng.Intn(2)
+	cfg := &shapex.Config{Class: "valid"}
+	for slot := 0; slot < nslots; slot++ {
+		sh := shapex.Shape{Slot: slot, Regex: shapex.RegexFor(rng, slot)}
+		for i, k := 0, 4+rng.Intn(8); i < k; i++ {
+			sh.Halts = append(sh.Halts, shapex.Halt{Byte: rng.Int63n(n), DurMs: int64(rng.Intn(3)), Count: -1})
+		}
+		if rng.Intn(2) == 0 {
+			sh.Closes = []shapex.Close{{Byte: rng.Int63n(n), Count: int64(1 + rng.Intn(3))}}
+		}
+		cfg.Shapes = append(cfg.Shapes, sh)
+	}
+	conc := 6 + rng.Intn(3)
+	reqs := map[int][]reqSpec{}
+	for i := 0; i < conc; i++ {
+		for j, k := 0, 20+rng.Intn(20); j < k; j++ {
+			slot := rng.Intn(nslots)
+			q := reqSpec{Slot: slot, ID: uint32(400 + slot), N: n, S: -1, E: -1, W: rng.Int63n(1 << 40)}
+			if rng.Intn(2) == 0 {
+				q.S = rng.Int63n(n)
+			}
+			reqs[i] = append(reqs[i], q)
+		}
+	}
+	s.Phases = []phase{{Pre: cfg, Open: conc, Reqs: reqs}}
+	if rng.Intn(2) == 0 { // and a reconfiguration while they run
+		cfg2 := shapex.GenValid(rng, shapex.GenOpts{Gen: 2, Slots: []int{0}, Res: s.Res, Closes: true, CloseAll: true})
+		s.Phases[0].Mid = cfg2
+	}
+	return s
+}
+
 func (s *scenario) bodies() []string {
 	var bs []string
 	for _, p := range s.Phases {
@@ -1270,7 +1415,7 @@ func runScenario(r *vh.Run, c scenCase, s *scenario, skipCensus *bool) {
 			midOK = st.doPost(r, c, g.h, ph.Mid)
 		}
 		wg.Wait()
-		if !midOK || watchdog {
+		if !midOK || watchdog || st.isStalled() {
 			break
 		}
 		for _, id := range ph.Close {
@@ -1283,15 +1428,22 @@ func runScenario(r *vh.Run, c scenCase, s *scenario, skipCensus *bool) {
 	for _, cc := range conns {
 		cc.c.Close()
 	}
-	if watchdog {
+	switch {
+	case st.isStalled():
+		// martian goroutines are parked for good: Proxy.Close would wait for
+		// them forever. The rig is abandoned (its goroutines stay behind, the
+		// census works on goroutine ids and is not disturbed by them).
+		r.Count("rigs_abandoned_after_stall", 1)
+		g.tsl.Close()
+		*skipCensus = true
+	case watchdog:
 		r.SetCase(c)
-		r.Inconclusive("harness I/O watchdog fired (no byte for 100 s)", vh.MartianGoroutines())
-	} else {
-		census(r, c, pre, allowed, totalConns, skipCensus)
-	}
-	g.close()
-	if watchdog {
+		r.Inconclusive("harness I/O watchdog: no byte for minutes although the system is not quiescent", vh.MartianGoroutines())
+		go g.close()
 		return
+	default:
+		census(r, c, pre, allowed, totalConns, skipCensus)
+		g.close()
 	}
 	if st.aborted != "" && strings.HasPrefix(s.Variant, "mid-") {
 		// the configuration in force while the in-flight responses ran is not
@@ -1459,6 +1611,7 @@ func runDirect(r *vh.Run, c scenCase, d *dscenario, skipCensus *bool) {
 			for {
 				dc.cl.SetReadDeadline(time.Now().Add(ioWatchdog))
 				n, err := dc.cl.Read(buf)
+				atomic.AddInt64(&st.rx, int64(n))
 				if n > 0 {
 					dc.rx = append(dc.rx, buf[:n]...)
 					dc.marks = append(dc.marks, rxMark{int64(len(dc.rx)), time.Now()})
@@ -1522,8 +1675,40 @@ func runDirect(r *vh.Run, c scenCase, d *dscenario, skipCensus *bool) {
 		}
 		st.doPost(r, c, h, d.Mid)
 	}
-	wg.Wait()
-	rwg.Wait()
+	allDone := make(chan struct{})
+	go func() { wg.Wait(); rwg.Wait(); close(allDone) }()
+	for tries := 0; ; {
+		stop := true
+		select {
+		case <-allDone:
+		case <-time.After(readSlice):
+			select {
+			case <-allDone:
+			default:
+				switch st.classifyStall() {
+				case vh.Stuck:
+					r.Eval(1)
+					r.Class("direct|stalled")
+					r.ViolationCase(c, "C18:bytes:stalled:matching", "writers into shaped connections are blocked for good and the system is quiescent: the bytes written are never delivered",
+						map[string]interface{}{"quiescent_goroutines": head(condense(st.stalled), 8000)})
+					tsl.Close()
+					*skipCensus = true
+					return
+				default:
+					tries++
+					if tries > 8 {
+						r.SetCase(c)
+						r.Inconclusive("direct driver: writers not finished after minutes although the system is not quiescent", nil)
+						return
+					}
+					stop = false
+				}
+			}
+		}
+		if stop {
+			break
+		}
+	}
 	for _, dc := range dcs {
 		dc.cl.Close()
 	}
@@ -1655,6 +1840,8 @@ func run(r *vh.Run, batch string) {
 		n = r.Pick(3, 12)
 	case "race":
 		n = r.Pick(4, 10)
+	case "share":
+		n = r.Pick(4, 25)
 	}
 	for i := 0; i < n; i++ {
 		c := scenCase{Kind: "scenario", Profile: kind, Stream: stream, Idx: i}
@@ -1680,9 +1867,12 @@ func runCase(r *vh.Run, c scenCase, skip *bool) {
 		runCfgCase(r, c, skip)
 	default:
 		var s *scenario
-		if c.Profile == "thr" {
+		switch c.Profile {
+		case "thr":
 			s = genThrottleScenario(r, c)
-		} else {
+		case "share":
+			s = genShareScenario(r, c)
+		default:
 			s = genScenario(r, c)
 		}
 		runScenario(r, c, s, skip)
@@ -1698,9 +1888,12 @@ func sampleOf(r *vh.Run, c scenCase) interface{} {
 		return map[string]interface{}{"case": c}
 	}
 	var s *scenario
-	if c.Profile == "thr" {
+	switch c.Profile {
+	case "thr":
 		s = genThrottleScenario(r, c)
-	} else {
+	case "share":
+		s = genShareScenario(r, c)
+	default:
 		s = genScenario(r, c)
 	}
 	nreq := 0
